@@ -76,7 +76,8 @@ func (sqlTx *SQLTx) IsExplicitCloseRequired() bool {
 }
 
 func (sqlTx *SQLTx) RequireExplicitClose() error {
-	if sqlTx.updatedRows != 0 {
+	if sqlTx.updatedRows != 0 || sqlTx.mutatedCatalog {
+		// what was executed so far (rows or catalog changes) is not part of the transaction being opened
 		return store.ErrIllegalState
 	}
 
